@@ -145,6 +145,11 @@ example : wf (.pair (.ptr (.set (.pod 4))) (.seq .str)) (some [[1, 0, 0, 0], [0,
     ∧ sizesFit (.pair (.ptr (.set (.pod 4))) (.seq .str)) (some [[1, 0, 0, 0], [0, 1, 0, 0]], [[], [0, 0]]) = true := by
   decide
 
+/-- `std::multimap<uint8_t, std::multiset<std::string>>` with a repeated key, and a `std::string[2]` member -/
+example : wf (.pair (.mmap (.pod 1) (.mset .str)) (.arr .str 2)) ([([1], [[97], [97], [98]]), ([1], [])], [[], [0]]) = true
+    ∧ sizesFit (.pair (.mmap (.pod 1) (.mset .str)) (.arr .str 2)) ([([1], [[97], [97], [98]]), ([1], [])], [[], [0]]) = true := by
+  decide
+
 /-- an unsorted "set" is not a value of the type -/
 example : wf (.set (.pod 4)) [[0, 1, 0, 0], [1, 0, 0, 0]] = false := by decide
 
